@@ -368,6 +368,41 @@ ADDED4 = {
     "C19": " Round 4: removal of a two-graph expression failing in the second graph, observe's default exception handler with unprintable events.",
     "C20": " Round 4: synchronised Expression traits (the trait stores the original text, validation yields a code object).",
 }
+ADDED5 = {
+    "C01": " Round 5: wildcards added to a finished class (add_class_trait), one-character 'p*' deferrals.",
+    "C02": " Round 5: the handler population changed during a dispatch (named / name-less / observe routes), comparison mode switched "
+           "after the definition was made, listener objects registered with add_trait_listener.",
+    "C03": " Round 5: classes with virtual subclasses (ABC.register, __subclasshook__, collections.abc.Sized), stand-in values in every "
+           "Adapt configuration.",
+    "C04": " Round 5: defaults of every container trait (also Trait(<default>, List(...))), falsy-constant inner traits, falsy owners.",
+    "C05": " Round 5: the list model distinguishes indices beyond a C ssize_t (insert / pop raise OverflowError there), static items handlers "
+           "of subclasses / equal listener objects / Undefined items (class-routes), wildcard-declared lists, notifiers taken at construction, "
+           "detached containers that equal the current value after their next change.",
+    "C06": " Round 5: class-routes (as C05), Undefined as key / value.",
+    "C07": " Round 5: one-shot iterables, arguments the built-in refuses (a list ending in an unhashable item, a non-iterable), class-routes.",
+    "C08": " Round 5: two roots that compare equal sharing a child (each registration its own).",
+    "C09": " Round 5: a metadata-filtered link re-assigned an equal object, one object under two keys of an observed Dict, closure handlers "
+           "that refer back to the observed object (collectable cycles).",
+    "C10": " Round 5: default methods returning a shared template tuple, defaults of comparison-mode-none traits (PyObject_RichCompareBool "
+           "contract added).",
+    "C11": " Round 5: SOLVER-DECIDED name arithmetic - the forwarding listener's slicing on z3 strings (deferring name, target name, suffix) "
+           "and the compiled name functions of the four prefix styles interpreted on symbolic name / prefix; base_trait() / validate_trait() "
+           "along the chain; identity-compared targets.",
+    "C12": " Round 5: a dependency selected by falsy metadata, values compared by content, a Set changed with symmetric_difference_update.",
+    "C13": " Round 5: instance traits over class-level Events in the access histories.",
+    "C14": " Round 5: a write-once attribute written with None, a cached property read while the state is applied, bare TraitLists validated "
+           "by a bound method of their owner.",
+    "C15": " Round 5: non-ASCII names and every ignored whitespace character in the rendered witnesses, a trait NAMED items added later.",
+    "C16": " Round 5: bracketed groups of links, Dict names ending like the items suffix, metadata traits added later, the "
+           "_<attribute>_changed_for_<link> spelling.",
+    "C17": " Round 5: strict owners, instance clones of the definition, the global manager's life cycle (install, reset, re-install).",
+    "C18": " Round 5: the setter sweep assigns the same value a second time; stand-ins in the Adapt validators.",
+    "C19": " Round 5: a failing default under a dynamic Range assigned before it was ever read.",
+    "C20": " Round 5: three objects synchronised pairwise with static handlers, re-raised handler exceptions and collectability; "
+           "synchronised Expression traits.",
+}
+for _k, _v in ADDED5.items():
+    ADDED4[_k] = ADDED4.get(_k, "") + _v
 for _k, _v in ADDED4.items():
     ADDED3[_k] = ADDED3.get(_k, "") + _v
 for _k, _v in ADDED3.items():
